@@ -122,14 +122,31 @@ void hook_free(void* p) {
     }
     in_lib = saved;
 }
+void* hook_malloc_thin(size_t n) {
+    int saved = in_lib; in_lib = 0; void* r = nullptr;
+    if (saved) { L.hook_allocs++; L.allocs++; if (!want_fail()) { r = __real_malloc(n); if (r) tab_add(r, n, 1); } }
+    else r = __real_malloc(n);
+    in_lib = saved; return r;
+}
+void hook_free_thin(void* p) {
+    int saved = in_lib; in_lib = 0;
+    if (saved) {
+        L.hook_frees++; L.frees++;
+        if (p) { Ent* e = tab_find(p); if (!e) ledger_error("free hook: pointer is not a live library block (double free / foreign pointer)"); else if (e->kind != 1) ledger_error("free hook: block belongs to the tagged custom allocator"); else { tab_del(e); __real_free(p); } }
+    } else __real_free(p);
+    in_lib = saved;
+}
 void install_hooks(HookCfg c) {
     cJSON_Hooks h; h.malloc_fn = nullptr; h.free_fn = nullptr;
     current_hooks = c;
     switch (c) {
         case HK_DEFAULT: cJSON_InitHooks(nullptr); break;
         case HK_CUSTOM: h.malloc_fn = hook_malloc; h.free_fn = hook_free; cJSON_InitHooks(&h); break;
-        case HK_MALLOC_ONLY: h.malloc_fn = hook_malloc; cJSON_InitHooks(&h); break;
-        case HK_FREE_ONLY: h.free_fn = hook_free; cJSON_InitHooks(&h); break;
+        case HK_MALLOC_ONLY: h.malloc_fn = hook_malloc_thin; cJSON_InitHooks(&h); break;
+        case HK_FREE_ONLY: h.free_fn = hook_free_thin; cJSON_InitHooks(&h); break;
+        case HK_CUSTOM_THEN_MALLOC_ONLY: h.malloc_fn = hook_malloc; h.free_fn = hook_free; cJSON_InitHooks(&h); h.malloc_fn = hook_malloc_thin; h.free_fn = nullptr; cJSON_InitHooks(&h); break;
+        case HK_CUSTOM_THEN_FREE_ONLY: h.malloc_fn = hook_malloc; h.free_fn = hook_free; cJSON_InitHooks(&h); h.malloc_fn = nullptr; h.free_fn = hook_free_thin; cJSON_InitHooks(&h); break;
+        default: break;
         case HK_RESET_NULL: h.malloc_fn = hook_malloc; h.free_fn = hook_free; cJSON_InitHooks(&h); cJSON_InitHooks(nullptr); break;
         case HK_NULL_MEMBERS: h.malloc_fn = hook_malloc; h.free_fn = hook_free; cJSON_InitHooks(&h); h.malloc_fn = nullptr; h.free_fn = nullptr; cJSON_InitHooks(&h); break;
     }
@@ -710,7 +727,7 @@ bool read_replay(const std::string& path, Case& c, std::string& stage) {
 }
 } // namespace
 
-Counters& ctr() { return g_replay ? g_replay_ctr : slots[g_wid].c; }
+Counters& ctr() { return (g_replay || g_wid < 0) ? g_replay_ctr : slots[g_wid].c; }
 bool deadline_hit() { return now_s() - cfg.start_time > cfg.deadline_s; }
 void note_outcome(uint64_t code) {
     if (g_replay) return;
